@@ -31,6 +31,7 @@ RULE = ('a case is one operation (props, index, getitem, insert, append, squeeze
         'the real code returned a result (not an exception) on a partition with at least 2 cells '
         'in total. distinct = distinct (operation, stream, ndim, shape class per axis (1, 2, 3+), '
         'uniform/non-uniform, per-side nodes-on-boundary flags, operation-specific class: kind of '
+        
         'index expression / position class of the point / which parameters were given) signatures '
         'among non-trivial cases.')
 TRUSTED = ['translator tools/extract/uniform_grid.py (AST of the (bdry_l, bdry_r) node-placement chain of '
@@ -38,14 +39,21 @@ TRUSTED = ['translator tools/extract/uniform_grid.py (AST of the (bdry_l, bdry_r
            'NumPy slicing, integer-array indexing, np.linspace, np.searchsorted (modelled by their '
            'specification: Python slice.indices, index wrap-around, lo + i*step, first index with '
            'v <= a[k])']
-ASSUMPTIONS = ['floating-point rounding is outside the model: the exact stream uses dyadic inputs so '
-               'that every operation on the path is exact and is compared exactly; the general stream '
+ASSUMPTIONS = ['floating-point rounding is outside the model: the exact stream uses dyadic inputs (incl. small cells '
+               'far from the origin, offsets 2^6..2^20 with cells down to 2^-17, and tiny cells 2^-20..2^-37 at the '
+               'origin) so that every operation on the path is exact and is compared exactly; the general stream '
                'is compared with |impl - model| <= 1e-9*scale + 1e-12',
-               'np.isclose / np.allclose tolerances (nodes_on_bdry, is_uniform, 4-parameter consistency '
-               'check) are parameters of the model (NumPy defaults in the driver, 0 in the theorems); '
-               'generated inputs are exactly on a boundary or at least an eighth of a cell away',
-               'negative-step slices and out-of-range negative integers are followed by the model as '
-               'coded (they are compared, not part of the theorems)']
+               'tolerances of the code are parameters of the model with the code\'s values in the driver: is_uniform '
+               'rtol 1e-5 + 4*2^-52*max|x|, nodes_on_bdry 1e-5 of the adjacent stride, np.isclose / 1e-5 in the '
+               'parameter completion; generated inputs are exactly on such a branch point or clearly away from it '
+               '(>= 1/8 cell, >= 1e-4 relative stride difference)',
+               'exceptions of the real code are compared as raised / not raised (the exception type is not modelled); '
+               'a raise where the model returns a result is a disagreement, a raise on a valid input of the property '
+               'is a violation; out-of-range integers, empty selections and malformed expressions MUST raise',
+               'negative-step slices, unsorted or repeated list entries, boolean masks, NumPy-array indices and '
+               'infinite intervals have no oracle verdict (the first two are followed by the model and compared)',
+               'the per-class histogram in the evidence is the harness\'s classification of the generated case, not a '
+               'trace of the branches the Lean model executed']
 
 TOL_REL, TOL_ABS = F(1, 10**9), F(1, 10**12)
 
@@ -158,8 +166,30 @@ def dy(rng, lo=-32, hi=32, den=8):
     return F(rng.randint(lo, hi), den)
 
 
+def far_small(rng):
+    """Affine map x -> off + x * 2^-j with |off| = 2^k, k = 6..20, j = 4..14: small cells far from
+    the origin (tolerances relative to the coordinate magnitude go wrong there). Everything stays
+    dyadic with < 53 significant bits, so the exact stream remains exact."""
+    if rng.random() < 0.3:
+        # tiny cells at the origin (absolute tolerances go wrong there)
+        sc = F(1, 2 ** rng.randint(20, 34))
+        return lambda x: x * sc
+    off = F(rng.choice([-1, 1]) * 2 ** rng.randint(6, 20))
+    sc = F(1, 2 ** rng.randint(4, 14))
+    return lambda x: off + x * sc
+
+
 def gen_axis(rng, exact):
-    """One axis: (coords, lo, hi, tag)."""
+    """One axis: (coords, lo, hi, tag); on the exact stream every 5th axis is mapped far from the
+    origin with small cells."""
+    c, lo, hi, tag = gen_axis0(rng, exact)
+    if exact and c is not None and rng.random() < 0.2:
+        f = far_small(rng)
+        c, lo, hi = [f(v) for v in c], f(lo), f(hi)
+    return c, lo, hi, tag
+
+
+def gen_axis0(rng, exact):
     kind = rng.choice(['uni', 'uni', 'non', 'non', 'one'])
     if not exact:
         # decimal values: rounding on the path
@@ -299,6 +329,16 @@ def gen_index_expr(rng, shape):
             items.append(k)
             wire.append('i_{}'.format(k))
             cls.append('int' if k >= 0 else 'negint')
+        elif t < 0.45:
+            k = rng.choice([1, 1, 2, 3])
+            li = sorted(rng.sample(range(n), min(k, n)))
+            if rng.random() < 0.3:
+                li = [i - n if rng.random() < 0.5 else i for i in li]
+            if rng.random() < 0.1:
+                li = [rng.randint(-n - 1, n) for _ in range(rng.choice([0, 1, 2]))]
+            items.append(list(li))
+            wire.append('l_' + ('.'.join(str(i) for i in li) if li else '-'))
+            cls.append('listitem')
         elif t < 0.9 or used_ellipsis:
             a, b, s = gen_slice(rng, n)
             items.append(slice(a, b, s))
@@ -309,7 +349,7 @@ def gen_index_expr(rng, shape):
             items.append(Ellipsis)
             wire.append('e')
             cls.append('ellipsis')
-    if len(items) == 1 and rng.random() < 0.5:
+    if len(items) == 1 and rng.random() < 0.5 and not isinstance(items[0], list):
         obj = items[0]
     else:
         obj = tuple(items)
@@ -380,6 +420,12 @@ def oracle_props(desc, props, exact):
                     ax, fl(fr[ax]))))
         # uniform axis: side * (n - (bl + br)/2) = extent when the limits are the natural ones
         d = [y - x for x, y in zip(c, c[1:])]
+        if n >= 3:
+            clearly_non = any(abs(x - d[0]) > F(1, 10**4) * abs(d[0]) for x in d)
+            same = all(x == d[0] for x in d)
+            if (clearly_non and uni[ax]) or (same and not uni[ax]):
+                out.append(('is_uniform classification', 'axis {}: is_uniform={} for strides {}'.format(
+                    ax, uni[ax], fl(d))))
         exactly_uniform = all(x == d[0] for x in d) if exact else \
             all(abs(x - d[0]) <= F(1, 10**7) * abs(d[0]) for x in d)
         if n >= 2 and exactly_uniform:
@@ -528,31 +574,46 @@ def run_index(desc, v, cls, exact, line, rp, outside):
 
 
 def py_selection(obj, shape):
-    """Cells selected by a tuple/int/slice expression according to Python/NumPy semantics
-    (None when the expression is not a valid selection)."""
+    """Cells selected by a tuple/int/slice/list-in-tuple expression according to Python/NumPy
+    semantics: list of (cells, hull_first, hull_last) per axis; 'reject' when the expression must be
+    rejected (out-of-range integer, empty selection, more than one ellipsis, too many indices);
+    None when there is no verdict (negative steps, unsorted / repeated list entries)."""
     nd = len(shape)
     items = list(obj) if isinstance(obj, tuple) else [obj]
-    if items.count(Ellipsis) > 1 or len([i for i in items if i is not Ellipsis]) > nd:
-        return None
-    if Ellipsis not in items:
+    n_ell = len([i for i in items if i is Ellipsis])
+    if n_ell > 1 or len(items) - n_ell > nd:
+        return 'reject'
+    if n_ell == 0:
         items = items + [Ellipsis]
-    e = items.index(Ellipsis)
+    e = [k for k, i in enumerate(items) if i is Ellipsis][0]
     items = items[:e] + [slice(None)] * (nd - len(items) + 1) + items[e + 1:]
     sel = []
+    verdict = True
     for it, n in zip(items, shape):
         if isinstance(it, slice):
+            if it.step is not None and it.step < 0:
+                verdict = False
+                continue
             cells = list(range(n))[it]
-            if not cells or (it.step is not None and it.step < 0):
-                return None
+            if not cells:
+                return 'reject'
             # documented: the limits are those of the unit-step range start:stop (step ignored)
             hull = list(range(n))[slice(it.start, it.stop, None)]
+        elif isinstance(it, list):
+            if not it or not all(-n <= i < n for i in it):
+                return 'reject'
+            cells = [i % n for i in it]
+            if not all(a < b for a, b in zip(cells, cells[1:])):
+                verdict = False
+                continue
+            hull = cells
         else:
             if not -n <= it < n:
-                return None
+                return 'reject'
             cells = [it % n]
             hull = cells
         sel.append((cells, hull[0], hull[-1]))
-    return sel
+    return sel if verdict else None
 
 
 def case_getitem(rng, desc, exact):
@@ -572,6 +633,8 @@ def unwire_idx(wire):
             items.append(Ellipsis)
         elif t.startswith('i_'):
             items.append(int(t[2:]))
+        elif t.startswith('l_'):
+            items.append([] if t[2:] in ('', '-') else [int(x) for x in t[2:].split('.')])
         else:
             a, b, s = [None if x == 'N' else int(x) for x in t[2:].split('_')]
             items.append(slice(a, b, s))
@@ -590,12 +653,17 @@ def run_getitem(desc, obj, wire, cls, exact, rp):
         n = shape[0]
         ok = bool(obj) and all(-n <= i < n for i in obj)
         cells = [i % n for i in obj] if ok else None
-        sel = None
+        sel = 'reject' if (obj and not ok) else None
         if ok and all(a < b for a, b in zip(cells, cells[1:])):
             sel = [(cells, cells[0], cells[-1])] + [(list(range(m)), 0, m - 1) for m in shape[1:]]
     else:
         sel = py_selection(obj, shape)
-    if sel is not None:
+    if sel == 'reject':
+        if res is not None:
+            problems.append(('getitem accepts invalid index ' + cls,
+                             'partition[{}] on shape {} returned {} (out-of-range integer / empty selection / '
+                             'malformed expression must raise)'.format(wire, shape, show_desc(res))))
+    elif sel is not None:
         msg = oracle_sub(desc, res, sel, 'partition[{}]'.format(wire))
         if msg:
             unit = all(c == list(range(a, b + 1)) for c, a, b in sel)
@@ -723,6 +791,14 @@ def run_byaxis(desc, obj, wire, cls, exact, rp):
 def flags_forms(rng, flags):
     """Python value + wire form for per-axis (bl, br) flags."""
     nd = len(flags)
+    if nd == 1 and rng.random() < 0.03:
+        # malformed: two pairs for one axis (normalized_nodes_on_bdry rejects it, uniform_grid_fromintv
+        # reads the two tuples as truth values)
+        return [(flags[0][0], flags[0][1]), (True, False)], 'a:{}{},10'.format(
+            int(flags[0][0]), int(flags[0][1])), 'odd'
+    if nd == 1 and rng.random() < 0.1:
+        # list instead of tuple for the flat pair
+        return [flags[0][0], flags[0][1]], 'f{}{}'.format(int(flags[0][0]), int(flags[0][1])), 'flat' 
     if all(f == flags[0] and f[0] == f[1] for f in flags) and rng.random() < 0.5:
         return bool(flags[0][0]), 'g{}'.format(int(flags[0][0])), 'global'
     if nd == 1 and rng.random() < 0.4:
@@ -763,6 +839,9 @@ def gen_uniform_params(rng, exact):
                 # Branch points are generated exactly, never nearly: dyadic values here.
                 h = F(rng.choice([1, 2, 3, 4, 6, 8, 12]), 8)
                 lo = dy(rng)
+        if exact and rng.random() < 0.2:
+            f = far_small(rng)
+            lo, h = f(lo), f(h) - f(0)
         hc = F(int(bl) + int(br), 2)
         hi = lo + h * (n - hc)
         axes.append(dict(n=n, bl=bl, br=br, h=h, lo=lo, hi=hi))
@@ -792,6 +871,12 @@ def case_uniform(rng, exact):
                                          hi=fs(a['hi'])) for a in axes],
           'given': given, 'flags': fw, 'mode': mode, 'exact': exact}
     return run_uniform(axes, given, fpy, fw, fcls, mode, exact, rp)
+
+
+def flag_class(fw, nd):
+    if fw[0] == 'a' and nd == 1 and fw.count(',') == 1:
+        return 'odd'
+    return {'g': 'global', 'f': 'flat', 'a': 'peraxis'}[fw[0]]
 
 
 def unwire_flags(fw):
@@ -860,7 +945,23 @@ def run_uniform(axes, given, fpy, fw, fcls, mode, exact, rp):
                                          ax, fs(lo), fs(hi), n, fs(h), bl, br, given[ax], fl(got_c),
                                          fs(res['lo'][ax]), fs(res['hi'][ax]))))
     elif res is not None and mode == 'inconsistent':
-        problems.append(('uniform_partition accepts inconsistent request', line))
+        # The 4-parameter test of the code is np.isclose(xmax, xmax_calc), i.e. deliberately loose and
+        # relative to |xmax|: only a deviation clearly outside that documented tolerance must be rejected
+        # (the integrality test of the computed shape is scale-free).
+        clearly = False
+        for a, g in zip(axes, given):
+            hc = F(int(a['bl']) + int(a['br']), 2)
+            calc = a['lo'] + (a['n'] - hc) * a['h']
+            dev = abs(a['hi'] - calc)
+            if g == 'min,max,h' and dev > 0:
+                clearly = True
+            if g == 'all' and dev > 4 * (F(1, 10**8) + F(1, 10**5) * abs(calc)):
+                clearly = True
+        if clearly:
+            problems.append(('uniform_partition accepts inconsistent request', line))
+    if fcls == 'odd':
+        # malformed nodes_on_bdry: the only demand is that it is rejected
+        problems = [('uniform_partition accepts malformed nodes_on_bdry', line)] if res is not None else []
     sig = ('uniform', exact, nd, tuple(given), tuple((a['bl'], a['br']) for a in axes),
            tuple(min(a['n'], 3) for a in axes), fcls) if res is not None else None
     return Case('uniform', line, res, problems, sig, rp, exact, sc)
@@ -919,6 +1020,8 @@ def run_fromintv(axes, fpy, fw, fcls, exact, rp):
                 problems.append(('uniform side times count flags {}{}'.format(int(bl), int(br)),
                                  'axis {}: nodes {} in [{}, {}] for n={} flags=({},{})'.format(
                                      ax, fl(c), fs(flo), fs(fhi), n, bl, br)))
+    if fcls == 'odd':
+        problems = []  # no verdict (grid.py reads the two tuples as truth values); compared with the model
     sig = ('fromintv', exact, nd, tuple((a['bl'], a['br']) for a in axes),
            tuple(min(a['n'], 3) for a in axes), fcls) if res is not None else None
     return Case('fromintv', line, res, problems, sig, rp, exact, sc)
@@ -1037,6 +1140,8 @@ def run_nonuniform(cs, mins, maxs, flags, fpy, fw, fcls, exact, rp):
         if not parts_equal(exp, res, exact, sc):
             problems.append(('nonuniform_partition ' + which + 'limits', '{}: got {} expected {}'.format(
                 line, show_desc(res) if res is not None else 'raised ' + str(err), show_desc(exp))))
+    if fcls == 'odd':
+        problems = [('nonuniform_partition accepts malformed nodes_on_bdry', line)] if res is not None else []
     sig = ('nonuniform', exact, nd, tuple(min(len(c), 3) for c in cs), tuple(flags),
            tuple(m is None for m in mins), tuple(m is None for m in maxs), fcls) if res is not None else None
     return Case('nonuniform', line, res, problems, sig, rp, exact, sc)
@@ -1390,12 +1495,12 @@ def replay(ctx, rp):
                      hi=core.pfrac(a['hi'])) for a in rp['axes']]
         fw = rp['flags']
         c = run_uniform(axes, rp['given'], unwire_flags(fw), fw,
-                        {'g': 'global', 'f': 'flat', 'a': 'peraxis'}[fw[0]], rp['mode'], exact, rp)
+                        flag_class(fw, len(axes)), rp['mode'], exact, rp)
     elif op == 'fromintv':
         axes = [dict(n=a['n'], bl=a['bl'], br=a['br'], lo=core.pfrac(a['lo']), hi=core.pfrac(a['hi']))
                 for a in rp['axes']]
         fw = rp['flags']
-        c = run_fromintv(axes, unwire_flags(fw), fw, '', exact, rp)
+        c = run_fromintv(axes, unwire_flags(fw), fw, flag_class(fw, len(axes)), exact, rp)
     elif op == 'fromgrid':
         un = lambda l: [None if t == 'N' else core.pfrac(t) for t in l]  # noqa
         c = run_fromgrid([[core.pfrac(v) for v in r] for r in rp['c']], un(rp['min']), un(rp['max']), exact, rp)
@@ -1411,7 +1516,7 @@ def replay(ctx, rp):
         else:
             flags = [(f, f) if isinstance(f, bool) else f for f in fpy]
         c = run_nonuniform(cs, un(rp['min']), un(rp['max']), flags, fpy, fw,
-                           {'g': 'global', 'f': 'flat', 'a': 'peraxis'}[fw[0]], exact, rp)
+                           flag_class(fw, len(cs)), exact, rp)
     else:
         return None
     # only the recorded relation counts (the same input may also show a known finding)
